@@ -37,6 +37,8 @@ Definition run_query (I : instance) (q : Z) (arg : val) : MO val :=
   | 12 => wrap vbool (q_is_scheduled (dec_key arg))
   | 13 => wrap vbool (q_is_ongoing I (dec_sop arg))
   | 14 => wrap enc_key (q_next_operation I (asN arg))
+  | 15 => wrap VI (q_min_start I (asLof dec_key arg))
+  | 16 => wrap (vlist enc_key) (q_filter I (dec_fname (vnth arg 0)) (asLof dec_key (vnth arg 1)))
   | _ => ret (VL [])
   end.
 
@@ -44,16 +46,18 @@ Definition run_event (I : instance) (ev : val) : wld -> wld * val :=
   fun w =>
   let fin {A} (f : A -> val) (p : wld * (A + exn)) : wld * val := (fst p, enc_res f (snd p)) in
   match asZ (vnth ev 0) with
-  | 0 => fin (fun _ : unit => VL []) (dispatch o_update I (dec_request ev) w)
+  (* on success: the subscribers notified, in notification order *)
+  | 0 => fin (fun _ : unit => vlist vnat (subs w)) (dispatch o_update I (dec_request ev) w)
   | 1 => match run_query I (asZ (vnth ev 1)) (vnth ev 2) w with
          | (w', inl v) => (w', v)
          | (w', inr e) => (w', VL [VI (exn_code e)])
          end
-  | 2 => fin (fun _ : unit => VL []) (reset o_reset I w)
+  | 2 => fin (fun _ : unit => vlist vnat (subs w)) (reset o_reset I w)
   | 3 => fin vnat (new_observer I (dec_okind (vnth ev 1)) w)
   | 4 => fin (fun _ : unit => VL []) (unsubscribe (asN (vnth ev 1)) w)
   | 5 => fin (fun _ : unit => VL []) (subscribe (asN (vnth ev 1)) w)
   | 6 => fin vnat (create_or_get I (dec_okind (vnth ev 1)) w)
+  | 8 => fin (fun _ : unit => vlist vnat (subs w)) (env_step o_update I (asN (vnth ev 1)) (asZ (vnth ev 2)) w)
   | _ => (w, snapshot I w)
   end.
 
